@@ -19,9 +19,12 @@ def make_input(p, wd, name="plt_in", names=None, payload="coded", specials=True)
                      payload=payload, time=p.get("time", 0.1 + p.get("seed", 0) * 1e-3),
                      ref_line_extra=p.get("ref_line_extra", 0),
                      levels=[[(tuple(lo), tuple(hi)) for lo, hi in lv] for lv in p["levels"]] if p.get("levels") else None)
+    if p.get("version"):
+        pf.version = p["version"]
     if specials:
         rng = random.Random(p.get("seed", 0) + 17)
-        for val in (float("inf"), 5e-324, -0.0):
+        # (the last ones: negative numbers with a three-digit exponent - 24 characters in the %.16e of the level headers)
+        for val in (float("inf"), 5e-324, -0.0, -1.5302524532769796e-107) + ((-7.25e+150,) if p.get("wide_floats") else ()):
             lv = rng.randrange(pf.L + 1)
             b = rng.randrange(pf.nboxes(lv))
             arr = pf.data[lv][b]
